@@ -116,12 +116,6 @@ def spec_host(data: bytes):
     return ("ok", None if host in ("absent", b"") else host)
 
 
-def bare_lf_head(data: bytes) -> bool:
-    """F-C19d class: a line of the head (up to and including the blank line) ends in LF without CR"""
-    m = re.search(rb"\n\r?\n", data)
-    return bool(re.search(rb"(?<!\r)\n", data[:m.end()] if m else data))
-
-
 def odd_method(data: bytes) -> bool:
     """F-C19c class: the method token does not start with three letters"""
     return re.match(rb"[A-Za-z]{3}", data) is None and re.match(TOKEN + rb" ", data) is not None
@@ -281,14 +275,14 @@ E2E_MODES = {"regular": ("regular", modes.HttpProxy), "transparent": ("transpare
 class Check(PropertyCheck):
     prop = "C19"
     design_ref = "§5 C19"
-    level_text = ("Lean theorems (22) over the model of NextLayer._ignore_connection/_get_host_header/_get_client_hello/_next_layer, "
+    level_text = ("Lean theorems (23) over the model of NextLayer._ignore_connection/_get_host_header/_get_client_hello/_next_layer, "
                   "NextLayer buffering+replay and the TCP/UDP relay, for ALL inputs: verdict_rule / allow_semantics / ignore_semantics "
                   "(the verdict is exactly the documented rule over the candidate host names; regex search is a parameter), "
-                  "candidates_cover_destinations; host_header_agrees_with_spec (regex scanner = RFC 9112 field syntax on EVERY "
-                  "well-formed CRLF head: first Host field, name case-insensitive, any SP/HTAB on both sides, any position, empty "
-                  "value = no host, any trailing bytes) with host_header_any_method_partial (every token method starting with three "
-                  "letters, any target) / _counterexample (F-C19c) and host_header_eol_partial / host_header_bare_lf_counterexample "
-                  "(F-C19d); host_header_prefix_stable / decision_prefix_stable / decision_seg_independent_partial (TCP: verdict at "
+                  "candidates_cover_destinations; host_header_agrees_mixed (regex scanner = RFC 9112 field syntax on EVERY well-formed "
+                  "head whose lines end in CRLF or bare LF in any mixture: FIRST Host field, name case-insensitive, any SP/HTAB on "
+                  "both sides, any position, empty value = no host, any trailing bytes; host_header_agrees_with_spec, "
+                  "host_header_eol_partial, host_header_bare_lf are its instances) with host_header_any_method_partial (every token "
+                  "method starting with three letters, any target) / _counterexample (F-C19c); host_header_prefix_stable / decision_prefix_stable / decision_seg_independent_partial (TCP: verdict at "
                   "the first deciding segment = verdict on the whole flight for EVERY segmentation once three bytes are there and "
                   "the deciding prefix does not end inside the request line) / _counterexample (F-C19b); datagram transports: "
                   "datagram_decision_local (later datagrams are never consulted), dtls_decision_prefix_stable, "
@@ -310,7 +304,11 @@ class Check(PropertyCheck):
                   "ClientHello parsing is Model/C13 (its theorem prefix_stable is imported). PARTIAL, each with the full statement "
                   "kept, a partial theorem and a proved counterexample: F-C19b (DecisionSegIndependent: first segment ends inside "
                   "the request line), F-C19c (HostHeaderAgreesAnyMethod: method token not starting with three letters, e.g. "
-                  "M-SEARCH), F-C19d (HostHeaderAgreesBareLf: bare-LF line ends - no verdict is ever taken). The segmentation clause "
+                  "M-SEARCH). F-C19d (bare-LF heads never got a verdict) is repaired in /repo 801640255; the scanner model and the "
+                  "scanner/spec agreement were re-established for the lenient scan (general statement host_header_agrees_mixed). "
+                  "known() excuses a failure only if the input is in the finding's class AND the failure is the recorded one "
+                  "(seg-dependent with a host-less verdict for F-C19b; Host header not consulted for F-C19c); known_selftest() runs "
+                  "positive and near-miss triples at every start. The segmentation clause "
                   "is claimed for TCP; for datagram transports boundaries are chosen by the sender and preserved (no network "
                   "re-segmentation) and _starts_like_quic looks at the size of what arrived, so different datagram sequences are "
                   "different inputs (shown by an evaluated example); what remains is proved (datagram_decision_local, dtls_*), QUIC "
@@ -351,6 +349,7 @@ class Check(PropertyCheck):
     def setup(self, tier):
         self.parallel = tier == "thorough"
         self._stash = {}
+        self.known_selftest()
         if self.parallel:
             import os
             os.cpu_count = lambda: 8      # shared machine: keep the fork pool of this run at 8 workers
@@ -884,18 +883,89 @@ class Check(PropertyCheck):
         return fails
 
     def known(self, case, obs, failure):
+        """id of the recorded finding iff the INPUT is in the finding's recorded class AND the FAILURE is the recorded one
+        (clause of the oracle + the structured fact the finding describes); everything else is reported."""
         k = case["kind"]
+        if not isinstance(obs, dict): return None
+        # ---- F-C19b: the bytes at the deciding point end inside the request line and _get_host_header answered "no Host
+        #      header" there (None), where the whole flight has one => clause "seg-dependent" only
         if failure.startswith("seg-dependent:"):
-            if k == "hh" and req_line_pending(unhx(case["dc_hex"])): return "F-C19b"
-            if k == "e2e" and "inside the request line" in failure: return "F-C19b"
-        if failure.startswith(("host:", "seg-dependent:", "verdict:")):
-            data = unhx(case["full_hex"]) if k == "hh" else unhx(case["dc_hex"]) if k in ("ig", "nl") else \
-                b"".join(unhx(x) for x in case["flight"]) if k == "e2e" else b""
-            if k in ("ig", "nl", "e2e") and not case["cfg"]["tcp"]: return None
-            if data[:1].isalpha() or odd_method(data):
-                if spec_host(data)[0] == "ok" and bare_lf_head(data): return "F-C19d"
-                if spec_host(data)[0] == "ok" and odd_method(data): return "F-C19c"
+            if k == "hh" and case["tcp"] and case["ds_hex"] == "-" and req_line_pending(unhx(case["dc_hex"])) and obs.get("hh") is None:
+                return "F-C19b"
+            if k == "e2e" and case["cfg"]["tcp"]:
+                flight = [unhx(x) for x in case["flight"]]
+                at = obs.get("decided_at")
+                if at is not None:
+                    p = b"".join(flight[: at + 1])
+                    if len(p) < len(b"".join(flight)) and req_line_pending(p) and self.verdict_without_host(case, obs):
+                        return "F-C19b"
+        # ---- F-C19c: method token not starting with three letters, well-formed head; the recorded failure is "the Host
+        #      header is not consulted": _get_host_header gives None / the verdict equals the verdict without Host header
+        if failure.startswith(("host:", "seg-dependent:")) and k == "hh" and case["tcp"] and case["ds_hex"] == "-":
+            full = unhx(case["full_hex"])
+            if odd_method(full) and spec_host(full)[0] == "ok":
+                if failure.startswith("host:") and obs.get("hh_full") is None: return "F-C19c"
+                if failure.startswith("seg-dependent:") and obs.get("hh") is None: return "F-C19c"
+        if failure.startswith("verdict: expected") and k in ("ig", "nl", "e2e") and case["cfg"]["tcp"] and case.get("intent") == "spec":
+            data = unhx(case["dc_hex"]) if k in ("ig", "nl") else b"".join(unhx(x) for x in case["flight"])
+            if odd_method(data) and spec_host(data)[0] == "ok" and self.verdict_without_host(case, obs):
+                return "F-C19c"
         return None
+
+    def verdict_without_host(self, case, obs):
+        """structured fact behind F-C19b/c: the observed verdict is the one the rules give when the Host header is left out"""
+        cfg = dict(case["cfg"])
+        if case["kind"] == "e2e":
+            eager = case["strategy"] == "eager" and cfg["tcp"]
+            cfg["peer"] = (cfg.get("peer") or cfg["addr"]) if eager else None
+            if obs.get("stack") is None: return False
+            seen = int(obs["stack"] in (["tcp-ignore"], ["udp-ignore"]) or bool(cfg.get("show") and obs["stack"] in (["tcp"], ["udp"])))
+        else:
+            if obs.get("dec") not in (0, 1): return False
+            seen = obs["dec"]
+        return seen == expected_verdict(cfg, None, None)
+
+    def known_selftest(self):
+        """known_audit.txt: one positive witness per finding and near misses (same class / other failure; neighbouring input /
+        same failure) — a disagreement ends the run as an infrastructure error, not as a pass"""
+        full = b"GET / HTTP/1.1\r\nHost:example.com\r\n\r\n"
+        odd = b"M-SEARCH * HTTP/1.1\r\nHost: example.com\r\n\r\n"
+        ig = lambda lit: {"s": 0, "e": 0, "lit": lit}
+        cfg = {"tcp": 1, "ignore": [ig("example.com")], "allow": [], "wg": 0, "peer": None, "addr": ["192.0.2.1", 80], "csni": None}
+        hh = lambda dc, fl, **kw: dict({"kind": "hh", "tcp": 1, "dc_hex": hx(dc), "ds_hex": "-", "full_hex": hx(fl)}, **kw)
+        e2e = lambda flight: {"kind": "e2e", "mode": "transparent", "scheme": "tcp", "strategy": "lazy", "cfg": dict(cfg, show=0, addr=["192.0.2.9", 80]),
+                              "flight": [hx(x) for x in flight], "script": [], "intent": "spec"}
+        want = hx(b"example.com")
+        T = [
+            # F-C19b positive, and its near misses
+            (hh(b"GET / HT", full), {"hh": None, "hh_full": want}, "seg-dependent: prefix ...", "F-C19b"),
+            (hh(b"GET / HT", full), {"hh": None, "hh_full": None}, "host: head ...", None),                       # same input, other clause
+            (hh(b"GET / HT", full), {"hh": hx(b"evil"), "hh_full": want}, "seg-dependent: prefix ...", None),      # same input, a wrong host instead of none
+            (hh(b"GET / HTTP/1.1\r\nHo", full), {"hh": None, "hh_full": want}, "seg-dependent: prefix ...", None),   # neighbour: request line complete
+            (hh(b"GET / HT", full, tcp=0), {"hh": None, "hh_full": want}, "seg-dependent: prefix ...", None),
+            (e2e([full[:8], full[8:]]), {"stack": ["http-transparent"], "decided_at": 0, "steps": [], "events": []}, "seg-dependent: decided on ...", "F-C19b"),
+            (e2e([full[:8], full[8:]]), {"stack": ["http-transparent"], "decided_at": 0, "steps": [], "events": []}, "passthrough: server got ...", None),
+            (e2e([full[:20], full[20:]]), {"stack": ["http-transparent"], "decided_at": 0, "steps": [], "events": []}, "seg-dependent: decided on ...", None),
+            (e2e([full[:8], full[8:]]), {"stack": ["tcp-ignore"], "decided_at": 0, "steps": [], "events": []}, "seg-dependent: decided on ...", None),   # not the host-less verdict
+            # F-C19c positive, and its near misses
+            (hh(odd, odd), {"hh": None, "hh_full": None}, "host: head ...", "F-C19c"),
+            (hh(odd[:30], odd), {"hh": None, "hh_full": None}, "seg-dependent: prefix ...", "F-C19c"),
+            (hh(odd, odd), {"hh": hx(b"evil"), "hh_full": hx(b"evil")}, "host: head ...", None),                 # same input, wrong value instead of none
+            (hh(full, full), {"hh": None, "hh_full": None}, "host: head ...", None),                              # neighbour: GET
+            (hh(b"M-SEARCH * HTTP/1.1\r\nHost : x\r\n\r\n", b"M-SEARCH * HTTP/1.1\r\nHost : x\r\n\r\n"), {"hh": None, "hh_full": None}, "host: head ...", None),   # malformed head
+            ({"kind": "ig", "cfg": cfg, "dc_hex": hx(odd), "ds_hex": "-", "intent": "spec"}, {"dec": 0}, "verdict: expected excluded by the allow/ignore rules, ...", "F-C19c"),
+            ({"kind": "ig", "cfg": cfg, "dc_hex": hx(odd), "ds_hex": "-", "intent": "spec"}, {"dec": "need"}, "verdict: no verdict on a complete first flight", None),
+            ({"kind": "ig", "cfg": dict(cfg, ignore=[ig("192.0.2.1")]), "dc_hex": hx(odd), "ds_hex": "-", "intent": "spec"}, {"dec": 0}, "verdict: expected excluded ...", None),  # not the host-less verdict
+            ({"kind": "ig", "cfg": cfg, "dc_hex": hx(full), "ds_hex": "-", "intent": "spec"}, {"dec": 0}, "verdict: expected excluded ...", None),
+            (e2e([odd]), {"stack": ["http-transparent"], "decided_at": 0, "steps": [], "events": []}, "verdict: expected excluded, chosen stack ...", "F-C19c"),
+            (e2e([odd]), {"stack": ["tcp-ignore"], "decided_at": 0, "steps": [], "events": []}, "passthrough: server got b'' ...", None),
+            (e2e([odd]), {"stack": None, "decided_at": None, "steps": [], "events": []}, "verdict: no layer chosen after the complete first flight ...", None),
+            # the repaired F-C19d class is no longer excused
+            (hh(b"GET / HTTP/1.1\nHost: a\n\n", b"GET / HTTP/1.1\nHost: a\n\n"), {"hh": "need", "hh_full": "need"}, "host: head ...", None),
+        ]
+        for case, obs, failure, expect in T:
+            got = self.known(case, obs, failure)
+            assert got == expect, f"known() self-test: {failure!r} on {json.dumps(case)[:200]} -> {got}, expected {expect}"
 
     # ================================================================================ model tie
     @staticmethod
